@@ -339,7 +339,7 @@ theorem SysOK.agentEv {s : Sys} (h : SysOK nat blocked SLA SLB SR liteA liteB T0
     (hid : SameId (s.agent z) (step (s.agent z) e).1)
     (hnd : ∀ f t n, Out.data f t n ∉ (step (s.agent z) e).2)
     (hreq : ∀ f t m, Out.dgram f t m ∈ (step (s.agent z) e).2 → m.cls = 0 → ReqOut (s.agent z) f t m)
-    (hC : z = c → ReqsOK (s.agent z) s.now (step (s.agent z) e))
+    (hC : z = c → ReqsOK' (s.agent z) (step (s.agent z) e))
     (hs' : ∃ LA LB, SInv nat blocked SLA SLB SR liteA liteB (s.agentEv z e).1 LA LB) :
     SysOK nat blocked SLA SLB SR liteA liteB T0 H c (s.agentEv z e).1 := by
   obtain ⟨hnat, hblk, hhasB, hnow⟩ := agentEv_static s z e
@@ -478,14 +478,11 @@ theorem SysOK.agentEv {s : Sys} (h : SysOK nat blocked SLA SLB SR liteA liteB T0
       · subst hz
         rw [hsame] at hpd ⊢
         have hR := hC rfl
-        have hf := hR.pend _ _ _ (mem_dgramsOf_stun hd hmp) hc
-        have hpo := hg.linv.pendOK.2
-        have hpe := find?_unique hpo hf hpd htid
-        subst hpe
-        have hucm : m.useCand = true := huc
+        obtain ⟨e1, e2, e3⟩ := hR.pend _ _ _ (mem_dgramsOf_stun hd hmp) hc pd hpd htid
+        have hucm : m.useCand = true := e3.symm.trans huc
         have hiq := hro.isReq
         rw [hucm] at hiq
-        refine ⟨hiq.congr hid, rfl, rfl, ?_⟩
+        refine ⟨hiq.congr hid, e1.symm, e2.symm, ?_⟩
         obtain ⟨p, l, r', hp1, hp2, hp3, hp4, hp5, hp6⟩ := hR.uc _ _ _ (mem_dgramsOf_stun hd hmp) hc hucm
         rw [← hp5, ← hp6]
         rw [← hsame] at hp1 hp3 hp4
@@ -560,7 +557,7 @@ theorem SysOK.handOver {s : Sys} (h : SysOK nat blocked SLA SLB SR liteA liteB T
       obtain ⟨r1, _⟩ := step_inbound_reqs h.time0 h.timeH (h.good z) (s.unmapped d.dst) (s.mapped d.src) m hok
       have key : SysOK nat blocked SLA SLB SR liteA liteB T0 H c (s.agentEv z (evOf s d)).1 := by
         rw [hev]
-        apply h.agentEv z _ g1 k1 i1 (step_inbound_noData _ _ _ _ _) r1.req (fun _ => r1)
+        apply h.agentEv z _ g1 k1 i1 (step_inbound_noData _ _ _ _ _) r1.req (fun _ => r1.weak g1.linv.pendOK.2)
         rw [← hev]
         rw [if_neg hnb] at hso
         simp only [hown] at hso
@@ -614,19 +611,23 @@ theorem advance_reqsOK {a : Agent} {T : Nat} (h0 : T0 ≤ T) (hT : T ≤ H) (hg 
     exact ⟨fun _ _ _ hm => absurd hm List.not_mem_nil, fun _ _ _ hm => absurd hm List.not_mem_nil,
       fun _ _ _ hm => absurd hm List.not_mem_nil⟩
 
-/-- one agent runs its due timers -/
-theorem SysOK.advanceAgent {s : Sys} (h : SysOK nat blocked SLA SLB SR liteA liteB T0 H c s) (z : Bool)
-    (hc : z = c → ∃ t, (s.agent c).nextTick = some t ∧ s.now ≤ t) :
-    SysOK nat blocked SLA SLB SR liteA liteB T0 H c (s.agentEv z (.advance s.now)).1 := by
+/-- one agent runs its due timers (any number of catch-up ticks) -/
+theorem SysOK.advanceAgentAny {s : Sys} (h : SysOK nat blocked SLA SLB SR liteA liteB T0 H c s) (z : Bool) (T : Nat)
+    (hT : s.now = T) : SysOK nat blocked SLA SLB SR liteA liteB T0 H c (s.agentEv z (.advance T)).1 := by
+  subst hT
   obtain ⟨g1, k1, i1⟩ := step_advance_good h.timeH (h.good z)
   obtain ⟨LA, LB, hsi⟩ := h.sinv
   have hso := IceProofs.C01.agentEv_ok hsi z (.advance s.now) (by intro _ _ he; cases he) (by intro _ _ he; cases he)
     (by intro _ _ _ _ he; cases he) (by intro _ _ _ _ he; cases he) (respLogged_false _ _)
-  refine h.agentEv z _ g1 k1 i1 (runTimers_noData _ _ _) (fun f t m hm hc0 => (runTimers_reqs h.timeH _ (h.good z) f t m hm).2) ?_ hso.1
-  intro hz
-  subst hz
-  obtain ⟨t, ht, hle⟩ := hc rfl
-  exact advance_reqsOK h.time0 h.timeH (h.good z) ht hle
+  exact h.agentEv z _ g1 k1 i1 (runTimers_noData _ _ _) (fun f t m hm hc0 => (runTimers_reqs h.timeH _ (h.good z) f t m hm).2)
+    (fun _ => runTimers_reqs' h.timeH 100000 (h.good z)) hso.1
+
+/-- one agent runs its due timers -/
+theorem SysOK.advanceAgent {s : Sys} (h : SysOK nat blocked SLA SLB SR liteA liteB T0 H c s) (z : Bool)
+    (hc : z = c → ∃ t, (s.agent c).nextTick = some t ∧ s.now ≤ t) :
+    SysOK nat blocked SLA SLB SR liteA liteB T0 H c (s.agentEv z (.advance s.now)).1 := by
+  have _ := hc
+  exact h.advanceAgentAny z s.now rfl
 
 theorem SysOK.advanceAgent' {s : Sys} (h : SysOK nat blocked SLA SLB SR liteA liteB T0 H c s) (z : Bool) (T : Nat)
     (hT : s.now = T) (hc : z = c → ∃ t, (s.agent c).nextTick = some t ∧ T ≤ t) :
@@ -634,27 +635,26 @@ theorem SysOK.advanceAgent' {s : Sys} (h : SysOK nat blocked SLA SLB SR liteA li
   subst hT
   exact h.advanceAgent z hc
 
+/-- the clock moves to `T` (within the horizon): both agents run their due timers, any number of catch-up ticks. -/
+theorem SysOK.advanceAny {s : Sys} (h : SysOK nat blocked SLA SLB SR liteA liteB T0 H c s) (T : Nat) (h0 : T0 ≤ T) (hT : T ≤ H) :
+    SysOK nat blocked SLA SLB SR liteA liteB T0 H c (s.advance T).1 := by
+  have hs0 : SysOK nat blocked SLA SLB SR liteA liteB T0 H c { s with now := T } :=
+    h.sub rfl rfl rfl rfl rfl h0 hT (fun _ hx => hx)
+  rw [advance_eq]
+  have h1 := hs0.advanceAgentAny false T rfl
+  have hb : (({ s with now := T } : Sys).agentEv false (.advance T)).1.hasB = true :=
+    (agentEv_static _ _ _).2.2.1.trans h.paired.hasB
+  rw [if_pos hb]
+  have hnow1 : (({ s with now := T } : Sys).agentEv false (.advance T)).1.now = T := (agentEv_static _ _ _).2.2.2
+  exact h1.advanceAgentAny true T hnow1
+
 /-- the clock moves to `T` (within the horizon, not beyond the controlling agent's next tick): both agents run their
 due timers. -/
 theorem SysOK.advance {s : Sys} (h : SysOK nat blocked SLA SLB SR liteA liteB T0 H c s) (T : Nat) (h0 : T0 ≤ T) (hT : T ≤ H)
     (hc : ∃ t, (s.agent c).nextTick = some t ∧ T ≤ t) :
     SysOK nat blocked SLA SLB SR liteA liteB T0 H c (s.advance T).1 := by
-  have hs0 : SysOK nat blocked SLA SLB SR liteA liteB T0 H c { s with now := T } :=
-    h.sub rfl rfl rfl rfl rfl h0 hT (fun _ hx => hx)
-  rw [advance_eq]
-  have h1 := hs0.advanceAgent' false T rfl (fun hz => by obtain ⟨t, ht, hle⟩ := hc; exact ⟨t, ht, hle⟩)
-  have hb : (({ s with now := T } : Sys).agentEv false (.advance T)).1.hasB = true :=
-    (agentEv_static _ _ _).2.2.1.trans h.paired.hasB
-  rw [if_pos hb]
-  have hnow1 : (({ s with now := T } : Sys).agentEv false (.advance T)).1.now = T := (agentEv_static _ _ _).2.2.2
-  exact h1.advanceAgent' true T hnow1 (fun hz => by
-    subst hz
-    obtain ⟨t, ht, hle⟩ := hc
-    refine ⟨t, ?_, hle⟩
-    have e : (({ s with now := T } : Sys).agentEv false (.advance T)).1.agent true = s.agent true :=
-      agentEv_agent_other { s with now := T } false (.advance T)
-    rw [e]
-    exact ht)
+  have _ := hc
+  exact h.advanceAny T h0 hT
 
 end
 
